@@ -759,3 +759,85 @@ func Crowded(r *rand.Rand) (ref.Pos, bool) {
 	}
 	return ref.Pos{}, false
 }
+
+// CornerRook: a rook stands at home with its castling right intact, a second rook of the same side can reach
+// that corner, and an enemy piece (bishop, queen, knight, rook or a promoting pawn) can take the home rook now.
+// Three plies on — capture, recapture by the second rook, anything — the castling right must be gone although
+// king and "a" rook stand where they should. ok=false when the random attempt is not a legal position.
+func CornerRook(r *rand.Rand) (ref.Pos, bool) {
+	var p ref.Pos
+	p.EP = -1
+	p.White = true
+	p.Full = 1 + r.Intn(40)
+	p.Half = r.Intn(30)
+	cf := []int{0, 7}[r.Intn(2)] // corner file
+	dir := 1
+	if cf == 7 {
+		dir = -1
+	}
+	corner := ref.Sq(cf, 7)
+	p.B[ref.Sq(4, 7)] = -ref.King
+	p.B[corner] = -ref.Rook
+	if cf == 0 {
+		p.Cast = ref.CastleBQ
+	} else {
+		p.Cast = ref.CastleBK
+	}
+	// the second rook: on the corner file below, or (rarely) beyond the king on the back rank is impossible: file only
+	p.B[ref.Sq(cf, 1+r.Intn(5))] = -ref.Rook
+	// the capturer
+	switch r.Intn(5) {
+	case 0, 1: // along the long diagonal
+		k := 2 + r.Intn(5)
+		v := int8(ref.Bishop)
+		if r.Intn(3) == 0 {
+			v = ref.Queen
+		}
+		p.B[ref.Sq(cf+dir*k, 7-k)] = v
+	case 2: // knight
+		sq := [][2]int{{cf + dir, 5}, {cf + 2*dir, 6}}[r.Intn(2)]
+		p.B[ref.Sq(sq[0], sq[1])] = ref.Knight
+	case 3: // along the back rank from the far side is blocked by the king; a pawn takes and promotes
+		p.B[ref.Sq(cf+dir, 6)] = ref.Pawn
+	default: // rook or queen on the rank next to the king's: no; down the file is blocked; use the diagonal again from far away
+		p.B[ref.Sq(cf+dir*7, 0)] = ref.Bishop
+	}
+	// white king out of the way, a few bystanders
+	for try := 0; try < 20; try++ {
+		sq := ref.Sq(2+r.Intn(5), r.Intn(2))
+		if p.B[sq] == 0 {
+			p.B[sq] = ref.King
+			break
+		}
+	}
+	if r.Intn(2) == 0 { // the other black rook's right as well, and white rights
+		if o := ref.Sq(7-cf, 7); p.B[o] == 0 {
+			p.B[o] = -ref.Rook
+			p.Cast |= ref.CastleBQ | ref.CastleBK
+		}
+	}
+	for k, n := 0, r.Intn(4); k < n; k++ {
+		sq := ref.Sq(r.Intn(8), 1+r.Intn(5))
+		if p.B[sq] == 0 && ref.File(sq) != cf {
+			v := int8(1 + r.Intn(3))
+			if r.Intn(2) == 0 {
+				v = -v
+			}
+			p.B[sq] = v
+		}
+	}
+	if !valid(&p) {
+		return p, false
+	}
+	// the home rook must be capturable now
+	can := false
+	for _, m := range p.LegalMoves() {
+		if m.To == corner && m.Capture == ref.Rook {
+			can = true
+		}
+	}
+	if !can {
+		return p, false
+	}
+	return maybeFlip(r, p), true
+}
